@@ -23,6 +23,6 @@ PROPS = {
         "assumptions": ["crash model = process kill: completed file-system calls survive, an in-flight write may land as a page-granular prefix; power loss is not modelled",
                         "the compaction point is implementation-defined (file-granular) and only constrained, not equated, with the reference"],
         "quick": {"runs": 260, "budget_s": 150, "workers": 14},
-        "thorough": {"runs": 12000, "budget_s": 1500, "workers": 16, "env": {"VERIF_RUN_TIMEOUT_S": "900"}},  # rotation histories x all crash points take minutes on a loaded machine
+        "thorough": {"runs": 12000, "budget_s": 1200, "workers": 16, "env": {"VERIF_RUN_TIMEOUT_S": "900"}},  # rotation histories x all crash points take minutes on a loaded machine
     },
 }
